@@ -17,7 +17,7 @@ def pct(s):
 
 
 def rand_circuit(rng, n_in=None, n_gates=None, n_out=None, n_ff=None, style=None, p_unconn=0.1,
-                 p_direct=0.2, allow_consts=True, two_out_ff=True, p_dangling=0.1):
+                 p_direct=0.2, allow_consts=True, two_out_ff=True, p_dangling=0.1, xor_bias=0.0):
     """returns a kyupy Circuit. style 'v': ports are cells 'input'/'output' around forks (Verilog reader style);
     style 'b': ports are forks (bench reader style)."""
     from kyupy.circuit import Circuit, Node, Line
@@ -41,8 +41,10 @@ def rand_circuit(rng, n_in=None, n_gates=None, n_out=None, n_ff=None, style=None
     for k in range(n_ff):
         kind = rng.choice(['DFF', 'DFF', 'dff', 'SDFFX1', 'LATCH', 'latch'])
         ff = Node(c, f'ff{k}', kind)
-        q = Node(c, f'q{k}'); Line(c, (ff, 0), q); sigs.append(q)
-        if two_out_ff and rng.random() < 0.4:
+        only_qn = two_out_ff and rng.random() < 0.2      # first output left unconnected, second one used
+        if not only_qn:
+            q = Node(c, f'q{k}'); Line(c, (ff, 0), q); sigs.append(q)
+        if only_qn or (two_out_ff and rng.random() < 0.4):
             qn = Node(c, f'qn{k}'); Line(c, (ff, 1), qn); sigs.append(qn)
         ffs.append(ff)
     direct = []        # gate nodes whose output is not yet connected (for 1:1 direct lines)
@@ -53,6 +55,8 @@ def rand_circuit(rng, n_in=None, n_gates=None, n_out=None, n_ff=None, style=None
         else:
             ar = rng.choice([1, 2, 2, 2, 3, 3, 4, 4])
             kind = rng.choice(KINDS[ar])
+            if xor_bias and rng.random() < xor_bias and ar >= 2:
+                kind = rng.choice(['XOR', 'XNOR']) + str(ar)      # transition-rich circuits (long waveforms, overflows)
         node = Node(c, f'g{g}', kind)
         for pin in range(ar):
             if rng.random() < p_unconn and not (ar == 1):
@@ -113,3 +117,23 @@ def describe(c):
     unconn = sum(1 for n in c.nodes for l in n.ins if l is None)
     fan = max([len(n.outs) for n in c.nodes] + [0])
     return {'nodes': len(c.nodes), 'lines': len(c.lines), 'ff': nff, 'unconnected_pins': unconn, 'max_fanout': fan, 'kinds': len(kinds)}
+
+
+def xor_tree(rng, n_in=None):
+    """inputs -> one XOR/XNOR of arity 2..4 (plus an optional second stage) -> outputs: produces long waveforms at the ports"""
+    from kyupy.circuit import Circuit, Node, Line
+    n_in = n_in or rng.randint(2, 4)
+    c = Circuit('xort'); sigs = []
+    for i in range(n_in):
+        n = Node(c, f'i{i}', 'input'); f = Node(c, f'i{i}'); Line(c, n, f); c.io_nodes.append(n); sigs.append(f)
+    g = Node(c, 'g0', rng.choice(['XOR', 'XNOR']) + str(max(2, n_in)))
+    for k, s_ in enumerate(sigs[:4]): Line(c, s_, (g, k))
+    gf = Node(c, 'g0'); Line(c, g, gf)
+    outs = [gf]
+    if rng.random() < 0.5:
+        h = Node(c, 'g1', rng.choice(['XOR2', 'AND2', 'OR2', 'BUF1'])); Line(c, gf, (h, 0))
+        if not h.kind.startswith('BUF'): Line(c, sigs[0], (h, 1))
+        hf = Node(c, 'g1'); Line(c, h, hf); outs.append(hf)
+    for k, o in enumerate(outs):
+        n = Node(c, f'o{k}', 'output'); Line(c, o, n); c.io_nodes.append(n)
+    return c
